@@ -71,7 +71,7 @@ def _marker():
 
 def value_strategy():
   keys = ['k', 'm', 'a.b', 'x y', 0, 1, -2, 'é']
-  base = values.vdesc(max_leaves=8, keys=keys, objects=True, tuples=True, typed=True, scalars=_leaf())
+  base = values.vdesc(max_leaves=8, keys=keys, objects=True, tuples=True, typed=True, scalars=_leaf(), functors=True)
   return st.one_of(base, base, base, st.tuples(base, _marker()).map(list))
 
 
@@ -326,6 +326,13 @@ def _value_case(case, res):
       if inv is not None:
         return res.violate('%s result is not a well-formed tree: %s' % (name, detail), law='roundtrip-malformed',
                            route=name, inv=inv, **sig)
+      # a functor keeps apart the arguments it was given and those it holds by default (only the former are frozen
+      # for the call): a copy tells them apart the same way
+      fv, fw = _functor_nodes(v), _functor_nodes(w)
+      for a, b in zip(fv, fw):
+        if sorted(a.specified_args) != sorted(b.specified_args):
+          return res.violate('functor %r: specified arguments %r, after %s %r' % (
+              a, sorted(a.specified_args), name, sorted(b.specified_args)), law='roundtrip-functor-bookkeeping', route=name, **sig)
       # schema-backed behaviour: a near-miss write is rejected by both
       for node_v, node_w in zip(_typed_nodes(v), _typed_nodes(w)):
         rv = _rejects(node_v)
@@ -358,6 +365,25 @@ def _loose_snap(v):
   if callable(v) or isinstance(v, type):
     return ('callable', getattr(v, '__qualname__', repr(v)))
   return (type(v).__name__, repr(v))
+
+
+def _functor_nodes(v):
+  out = []
+
+  def walk(x):
+    if isinstance(x, pg.Functor):
+      out.append(x)
+    if isinstance(x, pg.Symbolic) and not isinstance(x, (pg.typing.ValueSpec, pg.DNA, pg.geno.DNASpec)):
+      for _, y in x.sym_items():
+        walk(y)
+    elif isinstance(x, (list, tuple)):
+      for y in x:
+        walk(y)
+    elif isinstance(x, dict):
+      for y in x.values():
+        walk(y)
+  walk(v)
+  return out
 
 
 def _typed_nodes(v):
